@@ -58,8 +58,10 @@ def generate(seed, tier="quick", mode=None, **kw):
                         seg[2]["pre"], seg[2]["post"] = r.choice(QUOTES)
                 # the same Juniper plaintext in clear, in a slot that takes text
                 for s in ln["segs"]:
-                    if s[0] == "sec" and s[2].get("enc") == "j9" and r.random() < 0.2 and "text" in _allowed(ln["tmpl"]):
-                        s[2]["enc"] = "plain"
+                    if s[0] == "sec" and s[2].get("enc") == "j9" and r.random() < 0.3:
+                        pc = {"j9p": "text", "j9p-num": "num", "j9p-hex": "hex"}[secrets[str(s[2]["id"])]["cls"]]
+                        if pc in _allowed(ln["tmpl"]):
+                            s[2]["enc"] = "plain"
                 lines.append(ln)
             elif c < 0.80:
                 lines.append(G.lit_line(r.choice(G.BENIGN)))
@@ -223,22 +225,23 @@ def _check_c08(plan):
                 probes["tokens_from_failed_files"] += 1
             if meta.get("pre") or meta.get("post"):
                 probes["quoted"] += 1
-            if meta.get("enc") == "plain" and plan["secrets"][ident]["cls"] == "j9p":
+            if meta.get("enc") == "plain" and plan["secrets"][ident]["cls"].startswith("j9p"):
                 probes["j9_clear_identity"] += 1
-            if idx is None:
-                probes["undecodable_token"] += 1
-                continue
             where = "%s line %d (%r)" % (path, n, oline[:90])
-            seen_files.setdefault(ident, set()).add(path)
-            seen_forms.setdefault(ident, set()).add(ln["tmpl"])
-            by_id.setdefault(ident, {}).setdefault(idx, where)
-            by_idx.setdefault(idx, {}).setdefault(ident, where)
-            key = (ident, tcls, meta.get("enc"))
+            # textual consistency within one encoding of one identity (independent of any decoder)
+            key = (ident, meta.get("enc"))
             prev = text_by.setdefault(key, (tok, where))
             if prev[0] != tok and not (o["words"] or o["as"] or o["ip"]):
                 V.append({"prop": "C08", "tag": "same-secret-different-text",
                           "detail": "secret #%s (%s) was replaced by %r at %s and by %r at %s" % (
                               ident, plan["secrets"][ident]["cls"], prev[0], prev[1], tok, where)})
+            if idx is None:
+                probes["undecodable_token"] += 1
+                continue
+            seen_files.setdefault(ident, set()).add(path)
+            seen_forms.setdefault(ident, set()).add(ln["tmpl"])
+            by_id.setdefault(ident, {}).setdefault(idx, where)
+            by_idx.setdefault(idx, {}).setdefault(ident, where)
     for ident, m in sorted(by_id.items()):
         if len(m) > 1:
             items = sorted(m.items())
